@@ -267,6 +267,8 @@ pub fn run(ctx: &mut Ctx) -> Result<(), Violation> {
                 Checked per case: exists/all tables against cofactor or/and, support disjoint from V, invariance under reversing/rotating/doubling/deduplicating V, identity when V misses the support, single-variable elimination, duality, and (sampled) the same through `exists|any|forall|all V # dnf(f)` text. \
                 Non-trivial = V meets the support of f and (the result is non-constant, or V has a repeated or absent variable); distinct by serialized case. Operand provenance: created in the environment through mk_choice (default), or - in a share of the random cases and in dedicated stages - plain values that belong to no environment / nodes of another environment (what BDD::<usize>::from(named) and the repository's own parser tests produce)."
         .to_string();
+    ctx.rule.push_str(" Wide texts: ");
+    ctx.rule.push_str(crate::widetext::RULE);
     ctx.rule.push_str(" Wide stage: ");
     ctx.rule.push_str(crate::wide::RULE);
     ctx.assume("operands interned via mk_choice; oracle = or/and of the two cofactors on truth tables");
@@ -330,10 +332,15 @@ pub fn run(ctx: &mut Ctx) -> Result<(), Violation> {
     let wc = ctx.tier.cases(6_000, 200_000);
     crate::wide::stage_quant(ctx, "wide-functions-and-long-lists", wc)?;
     crate::wide::stage_collisions(ctx, "operands-with-equal-hash-sub-diagrams", "quant")?;
+    let wc = ctx.tier.cases(1_200, 60_000);
+    crate::widetext::stage_padded(ctx, "quantifiers-on-variables-beyond-64-128-256-names", wc, true)?;
     Ok(())
 }
 
 pub fn replay(case: &Value) -> Check {
+    if let Some(r) = crate::widetext::replay(case) {
+        return r;
+    }
     if let Some(r) = crate::wide::replay(case) {
         return r;
     }
